@@ -184,6 +184,16 @@ def long_strings():
     yield '\\' * 40
     yield '/usr/local/lib/python3/site-packages/' * 3
     yield 'a-b.c_d:e;f' * 6
+    # characters with structure of their own: stacks of combining marks on one base letter ("Zalgo" text), joiners, variation selectors, bidi marks -
+    # a splitter that tries to keep such clusters together must still make progress when a cluster is longer than a line
+    for k in (1, 3, 8, 12, 20, 40, 80, 200):
+        yield ('e' + '\u0301' * k + ' ') * 3 + 'tail'
+        yield 'Z' + '\u0308\u0323\u20dd' * k
+    yield 'a\u200db\u200dc\u200d' * 12
+    yield '\U0001f469\u200d\U0001f469\u200d\U0001f467 ' * 8
+    yield 'x\ufe0f\u20e3' * 20
+    yield '\u202eright to left\u202c \u05d0\u05d1\u05d2 ' * 5
+    yield '\u0301\u0301\u0301 starts with marks ' * 4
 
 
 def mixed_quote_strings():
